@@ -1,4 +1,4 @@
-import CedarVerif.Lemmas.PolicySetHist
+import CedarVerif.Lemmas.PolicySetApi
 /-
 C08 — Template linking equals substitution; policy-set edits keep ids consistent.
 
@@ -7,11 +7,13 @@ The statements are about the mirrors in Cedar/PolicySet.lean of `Template::{cond
 of `ast::PolicySet` and of the public `cedar_policy::PolicySet`.
 
 Proved at full strength: `link_eq_subst`, `link_ok_iff`, `op_inv`, `op_fail_unchanged`, `no_panic`,
-`history_inv`, `authorize_considers_exactly_links` — for the operations add_static (= the API's `add`),
-add_template, link, unlink, remove_static, remove_template.
-Stated, not proved (visible as `def … : Prop`): the same for `merge_policyset` (`MergeInv`), the general core `add`
-(`AddInv`), the refinement of the abstract specification (`RefinesSpec`; proved here only for
-the ok/fail verdict of `link`: `refines_spec_partial`), and the API-layer projection invariant (`ApiInv`).
+`history_inv`, `authorize_considers_exactly_links` — for the core operations add_static, add_template, link,
+unlink, remove_static, remove_template — and, for the public API layer (`add`, `add_template`, `link`, `unlink`,
+`remove_static`, `remove_template` of `cedar_policy::PolicySet`), `api_op_inv` / `api_history_inv` (unconditional:
+the API's own guard makes every core `link` admissible) and `api_add_is_add_static`.
+Stated, not proved (visible as `def … : Prop`): the same for `merge_policyset` (`MergeInv`), the refinement of the
+abstract specification (`RefinesSpec`; proved here only for the ok/fail verdict of `link`:
+`refines_spec_partial`), and the exact projection property of the API layer's `policies` map (`ApiProjection`).
 These are covered by the correspondence run and the abstract-specification oracle of the harness.
 -/
 namespace Cedar.C08
@@ -155,6 +157,38 @@ theorem authorize_considers_exactly_links (ps : PolicySet) (req : Request) (es :
   intro x _
   exact ⟨rfl, rfl, TPolicy.outcome_substituted x.2 req es⟩
 
+/-! ## the public API layer -/
+
+/-- the API's `add` of a static policy goes through the general core `add`; on the sets the API can build this is
+exactly `add_static` -/
+theorem api_add_is_add_static (ps : PolicySet) (b : TemplateBody) (nb : ps.NoBareStatic) :
+    ps.add (linkStaticPolicy b).2 = ps.addStatic b :=
+  PolicySet.add_static_eq_addStatic ps b nb
+
+/-- C08 (API layer): every operation of the public `PolicySet` preserves its invariant — the core set is
+well-formed (`Invariant`), has no slot-less bare template, and the API's `templates` are core templates that are not
+policy ids. No admissibility hypothesis: the API's check `self.templates.get(&template_id)` is what makes the core
+`link` safe. `wellTyped`: a `Template` object has at least one slot (`Template::parse`). -/
+theorem api_op_inv (s : ApiPolicySet) (op : ApiOp) (wf : s.WF) (wt : op.wellTyped) : (s.applyOp op).ps.WF :=
+  ApiPolicySet.applyOp_wf s op wf wt
+
+/-- C08 (API layer): after any sequence of add, add_template, link, unlink, remove_static, remove_template calls on
+the public `PolicySet`, starting from the empty set, the core set satisfies the invariant: no id shared, no link
+without its template, `template_to_links_map` exact. -/
+theorem api_history_inv (ops : List ApiOp) (wt : ∀ op, op ∈ ops → op.wellTyped) :
+    (ApiPolicySet.run {} ops).WF ∧ Invariant (ApiPolicySet.run {} ops).ast := by
+  have h := ApiPolicySet.run_wf ops {} ApiPolicySet.wf_empty wt
+  exact ⟨h, h.ast⟩
+
+example :
+    let b : TemplateBody := { id := "a", annotations := [], effect := .permit, principalC := .any, actionC := .any, resourceC := .any, nonScope := none }
+    let t : Template := { body := { b with id := "t", principalC := .eq .slot }, slots := [.principal] }
+    let ops := [ApiOp.add b, .link "a" "l" {}, .addTemplate t, .link "t" "l" { principal := some ⟨"User", "u"⟩ }, .removeStatic "l",
+                .removeTemplate "t", .unlink "a", .unlink "l", .removeTemplate "t"]
+    (ApiPolicySet.run {} ops).ast.links.keys = ["a"] ∧ (ApiPolicySet.run {} ops).templates.keys = [] ∧
+    ((ApiPolicySet.run {} (ops.take 2)).applyOp (.link "a" "l" {})).err = some .expectedTemplate := by
+  decide +kernel
+
 /-! ## stated, not proved here (checked by the correspondence run and the harness oracle) -/
 
 /-- `merge_policyset` preserves the invariant (both arguments well-formed), never reaches its `unwrap`, and on
@@ -164,15 +198,14 @@ def MergeInv : Prop :=
     (ps.merge other rename).ps.WF ∧ (∀ m, (ps.merge other rename).err ≠ some (.panic m)) ∧
     ((ps.merge other rename).err ≠ none → (ps.merge other rename).ps = ps)
 
-/-- the general core `add` (any `Policy`, as used by the parsers) on a static policy behaves as `add_static`
-whenever the id is free, and preserves the invariant -/
-def AddInv : Prop :=
-  ∀ (ps : PolicySet) (b : TemplateBody), ps.WF → (ps.add (linkStaticPolicy b).2).ps.WF
-
-/-- the API layer's own maps are projections of the core set -/
-def ApiInv (s : ApiPolicySet) : Prop :=
-  s.ast.WF ∧ (∀ k p, s.policies.get? k = some p ↔ s.ast.links.get? k = some p) ∧
-  (∀ k t, s.templates.get? k = some t ↔ (s.ast.templates.get? k = some t ∧ s.ast.links.get? k = none))
+/-- the API layer's own maps are exactly the projections of the core set (proved: the `templates` half as an
+inclusion, inside `ApiPolicySet.WF`; the rest is checked by the correspondence: the listing of the API runs is read
+from the API maps, that of the core runs from the core maps) -/
+def ApiProjection : Prop :=
+  ∀ (ops : List ApiOp), (∀ op, op ∈ ops → op.wellTyped) →
+    let s := ApiPolicySet.run {} ops
+    (∀ k p, s.policies.get? k = some p ↔ s.ast.links.get? k = some p) ∧
+    (∀ k t, s.templates.get? k = some t ↔ (s.ast.templates.get? k = some t ∧ s.ast.links.get? k = none))
 
 /-- abstraction commutes with every operation: a successful call is a successful step of the abstract
 specification with the same resulting sets (as sets), a failed call is a failed step -/
